@@ -19,6 +19,8 @@ from concurrent.futures import ProcessPoolExecutor
 import multiprocessing as mp
 from .common import *
 from . import mps_gen as G
+from . import c02_gen
+from .c02_gen import regenerate      # setup.sh regenerates Gen/MpsNetGen.v (and the Gen files it imports) through this name
 
 PRECS = [2, 4, 8]
 
@@ -480,7 +482,9 @@ def compare_model(c, o, val, fixed):
 
 
 def run(ctx):
+    gen_rejected = c02_gen.regenerate(ctx)
     built = ctx.build()
+    ctx.extra['generated_model'] = c02_gen.status(gen_rejected, built)
     ctx.rule = ('grammar networks of vlib/mps_gen.py (1..4 blocks of conv / conv-BN / depthwise / residual add of (x, conv x), of two convs, of a depthwise chain with its source / pooling, head pool-flatten-linear(-BN)-linear; '
                 'depthwise / residual blocks forced first in half of the cases, all conv biases on in 60%) x precision tuples from {2,4,8} (1..3, any order) for activations and weights x random alpha with arg-max margin >= 0.05 '
                 'x temperature in [0.05,20] (both ends forced) x gumbel/hard/disable_shared_quantizers/pre-training-forward flags x conv padding_mode {zeros, circular, reflect, replicate} with padding > 0, paddings int / same / valid, same-padding with even and mixed kernels (2, 4, (2,3), (3,2)) x dilation 1..3 (also inside residual adds) x model under test {the MPS model, a copy.deepcopy / pickle round trip of it taken after construction / in training mode / after a coefficient change, coefficients of the copy changed afterwards; original must stay untouched} x export() repeated 0-2 more times on the same object after coefficient / weight changes written via copy_, .data=, .data.copy_, .data[i]=, an optimizer step or load_state_dict x learned PACT clip values {initial, moved to random values in [0.5,10] by copy_ / optimizer steps} x mode of the float model handed in {eval, train}: every sub-module must come back in that mode x moment of summary()+export() {on the wrapper exactly as returned for an eval-mode model (no .eval()/.train() call), after an eval forward, right after training-mode Gumbel forwards, after a coefficient update without forward} x schedule of 2-3 further forward passes (same / new batch, mode toggles) through the same exported model; where a layer input quantizer is not its producer output quantizer object the two are made to select different precisions. '
@@ -582,6 +586,11 @@ def run(ctx):
                 sumex.append('run_summary %s %s %s %s %s' % (coq(fixed), coq(not c['dsq']), coq(G.coq_ir(c['nodes'])), coq(al), coq(pl)))
                 sumidx.append(k)
             svals = ctx.coq_eval_sharded('summ', ['Plinio.Model.MpsNet'], '', sumex, shard=200)
+            # the model GENERATED from the MPS layers / selectors / exported layers on this run, on the same cases
+            gvals = ctx.coq_eval_sharded('gsumm', c02_gen.IMPORTS, '', c02_gen.gen_exprs(sumex, [good[k][0]['nodes'][0].get('dim', 2) == 1 for k in sumidx]), shard=200)
+            ctx.corr += len(gvals)
+            for mm, j in c02_gen.differences(sumex, svals, gvals):
+                mism.append((mm, good[sumidx[j]][0], good[sumidx[j]][1]))
             for k, sv in zip(sumidx, svals):
                 c, o = good[k]
                 for i, ent in o['layers'].items():
@@ -601,7 +610,9 @@ def run(ctx):
                         'disable_sampling=True is outside the quantifier (C10 finding) and never generated']
 
     if not ctx.violations:   # a printed KNOWN-FINDING must not hide a broken proof / model / correspondence
-        if not built:
+        if c02_gen.report(ctx, gen_rejected, built):
+            pass
+        elif not built:
             ctx.violation('proof-broken', {'theorems': [o_[0] for o_ in ctx.obligations if not o_[1]], 'log': getattr(ctx, 'broken_log', '')[-3000:]}, 'Props/C02.v no longer checks', no_input=True)
         elif not model_ok:
             ctx.violation('model-eval-broken', {'notes': ctx.notes}, 'the model could not be evaluated', no_input=True)
